@@ -71,9 +71,9 @@ CLAIMED["C20"] = dict(
     ref="6/C20")
 
 CLAIMED["C11"] = dict(
-    text="Proof for the combinatorial and structural clauses: Euler<float> members are extracted (bit-fields kept) and put under contract: setOrder decodes the documented ABCD encoding, order() re-encodes it, the 24 orders are legal, angleOrder is the (anti)cyclic permutation starting at the initial axis, angleMapping a permutation; lemmas over the real functions for all 24 orders and all angles: order() returns the order set, angleMapping is the inverse of angleOrder, setXYZVector/toXYZVector are mutually inverse slot permutations; toMatrix33() and toMatrix44() (two textual copies of the Shoemake formulas) hold the same rotation block for all 24 orders with sin/cos and arithmetic uninterpreted.",
-    note="Trusted: clang AST + cxx2c (differentially validated incl. bit-fields), cbmc SAT. Not covered: toMatrix against the product of elementary rotations, toQuat, extract round trips / gimbal lock, extract 3x3 vs 4x4 (time-out), angleMod/makeNear, extractEuler*.",
-    technique="CBMC function contracts (dfcc) + relational lemma harness with uninterpreted arithmetic on extracted C, SAT, all 24 orders",
+    text="Proof for the combinatorial and structural clauses: Euler<float> members are extracted (bit-fields kept) and put under contract: setOrder decodes the documented ABCD encoding, order() re-encodes it, the 24 orders are legal, angleOrder is the (anti)cyclic permutation starting at the initial axis, angleMapping a permutation; lemmas over the real functions for all 24 orders and all angles: order() returns the order set, angleMapping is the inverse of angleOrder, setXYZVector/toXYZVector are mutually inverse slot permutations; toMatrix33() and toMatrix44() (two textual copies of the Shoemake formulas) hold the same rotation block for all 24 orders with sin/cos and arithmetic uninterpreted. RING (Euler<int>, cos/sin uninterpreted ring-valued functions, only cos even / sin odd built in): for each of the 12 static orders toMatrix33() is the product of the three elementary row-vector rotations the order's name spells (ABC on (a0,a1,a2): R_A(a0) R_B(a1) R_C(a2)), each of the 12 rotating orders equals the static order with the same bits on the reversed angle triple, and Euler(x,y,z,XYZ).toMatrix44() == Matrix44::setEulerAngles((x,y,z)); the enum values are cut from the header on every run.",
+    note="Trusted: clang AST + cxx2c (differentially validated incl. bit-fields), cbmc SAT, z3-new som. Not covered: orthonormality (needs c^2+s^2=1), toQuat, extract round trips / gimbal lock, extract 3x3 vs 4x4 (time-out), angleMod/makeNear, extractEuler*.",
+    technique="CBMC function contracts (dfcc) + relational lemma harness with uninterpreted arithmetic on extracted C (SAT), polynomial identities with uninterpreted cos/sin on the int instantiation (z3 sum-of-monomials), all 24 orders",
     ref="6/C11")
 
 CLAIMED["C06"] = dict(
